@@ -195,9 +195,16 @@ def _site(ctx, m, f, c, subs, cfg):
         if any(_between(f, i, w, c) for w in writers):
             continue
         loads.setdefault(p_[0][2], []).append(i)
+    # helpers that receive the object read-only before the call (a range test moved into a function): their answer depends on the components
+    helpers = []
+    for h in f.all_insts():
+        if h.op == "call" and h.id != c.id and h.callee in m.functions and not m.functions[h.callee].decl and h.callee != SOURCE and h not in writers \
+                and any(o[0] in ("i", "a") and ir.field_path(m, f, o) == (A, ()) for o in h.ops) and _dominates(f, info, h.block.idx, c.block.idx) \
+                and not any(_between(f, h, w, c) for w in writers):
+            helpers.append(h)
     missing = {"i", "j", "k"} - set(loads)          # components that no test reads: unconstrained at the call
     every = [l for ls in loads.values() for l in ls]
-    first = min(every, key=lambda l: l.id) if every else c
+    first = min(every + helpers, key=lambda l: l.id) if every or helpers else c
     lids = [l.id for comp in ("i", "j", "k") for l in loads.get(comp, [])]
     comp_of = {l.id: comp for comp in ("i", "j", "k") for l in loads.get(comp, [])}
     # normalised on entry to the tests: every writer that can be the last one is a normalising kernel (or the initial copy of a parameter: IJK+ by contract)
@@ -217,6 +224,10 @@ def _site(ctx, m, f, c, subs, cfg):
     if not pl.hits:
         raise AnalysisBroken("the call is not reached from the component tests (engine lost the path)")
     loose = set(missing)
+    covered = set()
+    for h in helpers:
+        covered |= _helper_bounds(m, f, h, A, c)
+    loose -= covered
     for _id, _av, watched, s in pl.hits:
         for lid, av in zip(lids, watched):
             if av is None or av[0] != "int" or explore.to_signed_ivs(av)[-1][1] > 1 or explore.to_signed_ivs(av)[0][0] < 0:
@@ -240,6 +251,8 @@ def _site(ctx, m, f, c, subs, cfg):
             for l in loads.get(comp, []):
                 adef[l.id] = const(v, 32)
         adef[c.id] = const(INVALID, 32)
+        for h in helpers:
+            adef[h.id] = const(_eval_helper(m, f, h, A, t), int(h.type[1:]) if h.type[1:].isdigit() else 32)
         pl = _Reach(dict(targets))
         ex = Explorer(f, assume_def=adef, plugin=pl, start_block=first.block.idx)
         ex.seed_dominating = True
@@ -318,3 +331,79 @@ def _can_be_last(f, w, writers, first):
         seen.add(x)
         todo += f.blocks[x].succs()
     return False
+
+
+def _eval_helper(m, f, h, A, triple):
+    """value a read-only helper returns for the object holding the triple (exact evaluation of its expression tree)"""
+    from . import ceval
+    g = m.functions[h.callee]
+    args = []
+    for k, o in enumerate(h.ops[:len(g.args)]):
+        if o[0] in ("i", "a") and ir.field_path(m, f, o) == (A, ()):
+            args.append(("obj", k))
+        elif o[0] == "c":
+            args.append(o[1])
+        else:
+            raise AnalysisBroken("%s is called with an argument that is not the object or a constant" % h.callee)
+    comp = dict(zip(("i", "j", "k"), triple))
+
+    def load(key):
+        base, path = key
+        if len(path) == 1 and path[0][0] == "f" and path[0][2] in comp:
+            return comp[path[0][2]] & 0xffffffff
+        raise AnalysisBroken("%s reads %s of its argument" % (h.callee, path))
+    models = {("load", ("a", k)): load for k, a_ in enumerate(args) if isinstance(a_, tuple)}
+    ev = ceval.Eval(m, g, [0 if isinstance(a_, tuple) else a_ for a_ in args], models)
+    return ev.run()
+
+
+def _helper_bounds(m, f, h, A, c):
+    """components that a read-only helper bounds to 0..1 whenever it returns a value with which the caller goes on to call c"""
+    g = m.functions[h.callee]
+    ks = [k for k, o in enumerate(h.ops[:len(g.args)]) if o[0] in ("i", "a") and ir.field_path(m, f, o) == (A, ())]
+    if len(ks) != 1 or not h.type[1:].isdigit():
+        return set()
+    k = ks[0]
+    w = int(h.type[1:])
+    # which results let the caller reach c
+    passing = []
+    for v in (0, 1):
+        pl = _Reach({c.id: None})
+        ex = Explorer(f, assume_def={h.id: const(v, w)}, plugin=pl, start_block=h.block.idx)
+        ex.seed_dominating = True
+        ex.run()
+        if pl.hits:
+            passing.append(v)
+    if len(passing) != 1:
+        return set()
+    loads = {}
+    for i in g.all_insts():
+        if i.op == "load":
+            b_, p_ = ir.field_path(m, g, i.ops[0])
+            if b_ == ("a", k) and len(p_) == 1 and p_[0][0] == "f":
+                loads.setdefault(p_[0][2], []).append(i.id)
+    if any(x.op == "store" or (x.op == "call" and not (x.callee or "").startswith("llvm.")) for x in g.all_insts()):
+        return set()
+    nonneg = explore.mk(32, [(0, (1 << 31) - 1)])
+    ex = Explorer(g, assume_def={l: nonneg for ls in loads.values() for l in ls})
+    ex.run()
+    good = set(loads)
+    seen = False
+    for s_, t_, av in ex.rets:
+        if av is None or av[0] != "int" or explore.is_empty(explore.inter(av, const(passing[0], av[1]))):
+            continue
+        # the environment(s) in which the returned value is the passing one
+        if g.d.get("ret") == "i1" and t_.ops and t_.ops[0][0] == "i":
+            envs = ex.refine(t_.ops[0], bool(passing[0]), dict(s_.env))
+        else:
+            envs = [dict(s_.env)]
+            if t_.ops and t_.ops[0][0] in ("i", "a"):
+                ex._set_int(t_.ops[0], const(passing[0], av[1]), envs[0])
+        for env in envs:
+            seen = True
+            for comp, ls in loads.items():
+                for l in ls:
+                    v = ex.eval(("i", l), env)
+                    if v is None or v[0] != "int" or explore.to_signed_ivs(v)[-1][1] > 1 or explore.to_signed_ivs(v)[0][0] < 0:
+                        good.discard(comp)
+    return good if seen else set()
